@@ -261,6 +261,7 @@ func (lb *LoadBalancer) setupCircuitBreaker(cfg *config.Config) {
 		SuccessThreshold: uint32(cfg.CircuitBreaker.SuccessThreshold), // #nosec G115 - config validated to be positive
 		OnStateChange: func(name string, from circuitbreaker.State, to circuitbreaker.State) {
 			logging.L().Info().Str("circuit_breaker", name).Str("from", from.String()).Str("to", to.String()).Msg("circuit breaker state changed")
+			vhook.Yield("lb.cb.notify")
 			failureCount, successCount, requestCount := lb.circuitBreaker.Counts()
 			lb.metricsCollector.UpdateCircuitBreakerState(name, to.String(), metrics.CircuitBreakerCounts{
 				FailureCount: failureCount,
